@@ -49,15 +49,32 @@ func DeepEqual(x, y Node) bool {
 		}
 		return xv == yv
 	case Kind_Int:
-		xv, err := x.AsInt()
+		xv, xerr := x.AsInt()
+		yv, yerr := y.AsInt()
+		if xerr == nil && yerr == nil {
+			return xv == yv
+		}
+		// A value above the int64 range is only available through UintNode.
+		xu, xok := x.(UintNode)
+		yu, yok := y.(UintNode)
+		if xerr != nil && !xok {
+			panic(xerr)
+		}
+		if yerr != nil && !yok {
+			panic(yerr)
+		}
+		if xerr == nil || yerr == nil {
+			return false // one fits int64, the other does not
+		}
+		xuv, err := xu.AsUint()
 		if err != nil {
 			panic(err)
 		}
-		yv, err := y.AsInt()
+		yuv, err := yu.AsUint()
 		if err != nil {
 			panic(err)
 		}
-		return xv == yv
+		return xuv == yuv
 	case Kind_Float:
 		xv, err := x.AsFloat()
 		if err != nil {
